@@ -1771,8 +1771,10 @@ class AstEval:
     async def ast_listcomp(self, arg):
         """Evaluate list comprehension."""
         target_vars, save_values = await self.loopvar_scope_save(arg.generators)
-        result = await self.listcomp_loop(arg.generators, arg.elt)
-        await self.loopvar_scope_restore(target_vars, save_values)
+        try:
+            result = await self.listcomp_loop(arg.generators, arg.elt)
+        finally:
+            await self.loopvar_scope_restore(target_vars, save_values)
         return result
 
     async def ast_tuple(self, arg):
@@ -1813,8 +1815,10 @@ class AstEval:
     async def ast_dictcomp(self, arg):
         """Evaluate dict comprehension."""
         target_vars, save_values = await self.loopvar_scope_save(arg.generators)
-        result = await self.dictcomp_loop(arg.generators, arg.key, arg.value)
-        await self.loopvar_scope_restore(target_vars, save_values)
+        try:
+            result = await self.dictcomp_loop(arg.generators, arg.key, arg.value)
+        finally:
+            await self.loopvar_scope_restore(target_vars, save_values)
         return result
 
     async def ast_set(self, arg):
@@ -1843,8 +1847,10 @@ class AstEval:
     async def ast_setcomp(self, arg):
         """Evaluate set comprehension."""
         target_vars, save_values = await self.loopvar_scope_save(arg.generators)
-        result = await self.setcomp_loop(arg.generators, arg.elt)
-        await self.loopvar_scope_restore(target_vars, save_values)
+        try:
+            result = await self.setcomp_loop(arg.generators, arg.elt)
+        finally:
+            await self.loopvar_scope_restore(target_vars, save_values)
         return result
 
     async def ast_subscript(self, arg):
